@@ -573,6 +573,13 @@ def cases_once(add):
     addB("maxZahl", "duden maxZahl", p_scalar("der maximale Wert einer Zahl"), show_raw)
     addB("eins", "duden leere -", p_scalar("eins") + p_scalar("Eins"), lambda v: "1\n1\n")
     add("leererText", "duden leere -", "Der Text t ist ein leerer Text.\nSchreibe \"<\".\nSchreibe t.\nSchreibe \">\" auf eine Zeile.\n", lambda v: "<>\n")
+    # sorting long lists, among them permutations that drive the explicit stack of pending ranges of the iterative quicksort
+    # beyond its initial capacity of 50 ranges (chosen by simulating the algorithm, vlib/qsim.py); the stack is a global of the
+    # module and keeps its size from one call to the next
+    from .. import qsim
+    for shape, l, depth in qsim.stress_lists():
+        add("sortiert-lang:%s:depth-%d" % (shape, depth), "duden sortiert %s" % enc_ints(l), "Die Zahlen Liste l ist %s.\nDie Zahlen Liste r ist l sortiert.\n" % lit_list(l) + p_list("r"), show_list)
+        add("sortiere-ref-lang:%s:depth-%d" % (shape, depth), "duden sortiert %s" % enc_ints(l), "Die Zahlen Liste l ist %s.\nSortiere l.\n" % lit_list(l) + p_list("l"), show_list)
     # documented examples
     for a, b in (("Bar", "Bar"), ("Bar", "Bir"), ("Bar", "Bier"), ("Bar", "Ba"), ("kitten", "sitting"), ("", "abc"), ("abc", ""), ("", "")):
         ac, bc = [ord(x) for x in a], [ord(x) for x in b]
